@@ -392,7 +392,14 @@ class MinMaxAggregator:
 
         # 1. create a new domain for the complete elem.condition + lits_with_vars
         new_name = f"__{direction}_{number_of_aggregate}_{str(rule.location.begin.line)}"
+        # the line number alone is not unique (several rules per line, API-built programs)
+        taken = {pred.name for pred in self.unique_names.predicates}
+        base_name, counter = new_name, 1
+        while new_name in taken:
+            new_name = f"{base_name}_{counter}"
+            counter += 1
         new_predicate = Predicate(new_name, 1)
+        self.unique_names.predicates.add(new_predicate)
 
         head = SymbolicAtom(Function(LOC, new_name, [weight], False))
         lits_with_vars = []
